@@ -10,7 +10,8 @@ characters `\ LF TAB CR BEL | ; = ,` are written `\\ \n \t \r \a \p \s \e \c`.
 * `rmbanner <data>` → removeBanner;  `bstart <line>` → delimiter of a banner start line or `none`
 * `getout <pend>` / `waithash <pend>` → GetOutput / WaitShort("[#] ?$") on the whole stream: `<ok|abort…> TAB <out> TAB <rest>`
 * `chunks <p|h> <buf> <chunks |>` → expectChunks: `<consumed> TAB <rest> TAB <#pieces left>` or `none`
-* `dialog <fixed> <noAsk> <late> <changes |> <behavs |> <specials |>` →   (late: second prompt of a two-prompt answer arrives with the next answer)   (noAsk: device does not ask `Save? [yes/no]`)
+* `dialog <fixed> <noAsk> <late> <changes |> <behavs |> <specials |> <fixedLines |>` →   (fixedLines: `<line>=<behav>` for
+  `configure terminal`, `end`, `reload cancel`: banner on that fixed line, wideDevice)   (late: second prompt of a two-prompt answer arrives with the next answer)   (noAsk: device does not ask `Save? [yes/no]`)
       `R=<result> TAB T=<lines |> TAB W=<cmd,line |> TAB G=<guardOK>,<pendingAfter>,<rearms>,<changes>
        TAB H=<Chg.cleanB of all>,<Chg.noProbeFirstB of all>,<specOk>` (hypotheses of the banner theorems)
   behav = `<form>,<msg>,<out>` with form `N`, `A<pad>`, `B<off>`, `C<pad>`, `D`;
@@ -124,7 +125,12 @@ def answer (line : String) : String :=
     match expectChunks m (un buf) ((splitList cks "|").map un) with
     | none => "none"
     | some (a, r, cs) => s!"{esc a}\t{esc r}\t{cs.length}"
-  | ["dialog", fx, na, late, cs, bs, sp] =>
+  | ["dialog", fx, na, late, cs, bs, sp, fixedS] =>
+    let fixedL : List (Str × Behav) := (splitList fixedS "|").filterMap fun e =>
+      match e.splitOn "=" with
+      | [l, b] => (parseBehav b).map fun bb => (un l, bb)
+      | _ => none
+    let fb : Str → Option Behav := fun l => (fixedL.find? (·.1 == l)).map (·.2)
     match (splitList bs "|").mapM parseBehav, (splitList sp "|").mapM parseSpecial with
     | some behavs, some specials =>
       let changes := (splitList cs "|").map un
@@ -133,6 +139,10 @@ def answer (line : String) : String :=
         if late == "1" then
           let (r, st') := applyCommands (lateDevice (simDevice specials (na == "1"))) (fx == "1") changes
             { dev := (({ queue := behavs } : SimSt), []) }
+          (r, st'.trace, st'.warns)
+        else if !fixedL.isEmpty && specials.isEmpty then
+          -- banners on the fixed lines: the widened device of NA/Spec/IosDev.lean
+          let (r, st') := applyCommands (wideDevice (na == "1") fb) (fx == "1") changes st
           (r, st'.trace, st'.warns)
         else
           let (r, st') := applyCommands (simDevice specials (na == "1")) (fx == "1") changes st
